@@ -914,7 +914,7 @@ pub fn gen_corpus_with(seed: u64, n_fam: usize, q_per_fam: usize, adv: bool) -> 
             // the deep family: values nested deeper than 128 levels (hand-built; serde_json cannot parse
             // them), their small twin, and descendant queries whose results stay small
             let mut fam = vec![];
-            for t in ["#deep:140:8", "#deep:133:3", "{\"a\":{\"c\":1},\"b0\":{\"a\":{\"a\":{\"c\":2}}},\"c\":3}", "#records:100000"] {
+            for t in ["#deep:140:8", "#deep:133:3", "{\"a\":{\"c\":1},\"b0\":{\"a\":{\"a\":{\"c\":2}}},\"c\":3}", "#records:88000"] {
                 contents.push(t.to_string());
                 fam.push(contents.len() - 1);
             }
@@ -1239,10 +1239,13 @@ pub fn gen_plan_opt(c: &Corpus, run_seed: u64, allow_stress: bool) -> (Plan, Pla
         let fam_of_slot = c.families.iter().position(|fam| fam.contains(&content_map[slots[d][0]])).unwrap_or(0);
         c.fam_queries[fam_of_slot].contains(&qi) || c.q_other_family[qi] == fam_of_slot
     };
+    // a run that holds the multi-megabyte document is kept short: each descendant walk over it costs 0.1 s
+    let has_records = content_map.iter().any(|ci| c.contents[*ci].starts_with("#records"));
     // 2 % of the runs are crowds: 9-12 caller threads with a few operations each (limits on how many
     // callers may be inside some part of the library at once)
-    let crowd = !stress && rng.chance(2, 100);
+    let crowd = !stress && !has_records && rng.chance(2, 100);
     let n_clients = match if crowd { 4 + rng.below(4) } else if stress { 1 + rng.below(2) } else { rng.weighted(&[2, 3, 3, 2]) } {
+        _ if has_records => 1 + rng.below(2),
         4 => 9,
         5 => 10,
         6 => 11,
@@ -1259,7 +1262,7 @@ pub fn gen_plan_opt(c: &Corpus, run_seed: u64, allow_stress: bool) -> (Plan, Pla
     let w_ref = rng.below(2) as u32;
     let mut clients = vec![];
     for _ in 0..n_clients {
-        let n_ops = if stress { 400 + rng.below(500) } else if crowd { 2 + rng.below(5) } else { 3 + rng.below(38) };
+        let n_ops = if stress { 400 + rng.below(500) } else if crowd { 2 + rng.below(5) } else if has_records { 3 + rng.below(6) } else { 3 + rng.below(38) };
         let mut ops = vec![];
         let mut guard = 0;
         while ops.len() < n_ops && guard < 8000 {
@@ -1381,7 +1384,7 @@ pub fn gen_plan_opt(c: &Corpus, run_seed: u64, allow_stress: bool) -> (Plan, Pla
         }
     }
     // a multi-megabyte document has hundreds of thousands of nodes: no per-node schedule points at all
-    if content_map.iter().any(|ci| c.contents[*ci].starts_with("#records")) {
+    if content_map.iter().any(|ci| c.contents[*ci].starts_with("#records") || c.contents[*ci].len() > 10_000) {
         for s in [3u32, 4, 5, 6, 12] {
             site_mask &= !(1u64 << s);
         }
@@ -1433,7 +1436,7 @@ pub fn gen_plan_opt(c: &Corpus, run_seed: u64, allow_stress: bool) -> (Plan, Pla
         schedule: None,
         filler_from: if stress { Some(n_normal_q) } else { None },
         deep_stack,
-        reenter_get: repr > 0 && !stress && rng.chance(1, 4),
+        reenter_get: repr > 0 && !stress && !has_records && !has_deep && rng.chance(1, 4),
         clock_jumps,
     };
     // fillers select nothing whatever the document (their names occur nowhere), so they need no cold
@@ -1957,7 +1960,17 @@ pub fn drive(tier_name: &str, seed: u64, workers: usize) -> i32 {
             break;
         }
         let tr = std::time::Instant::now();
-        let results = par_map(&plans, workers, |(_, p, _)| run_plan(p, false));
+        let results = par_map(&plans, workers, |(i, p, _)| {
+            let t1 = std::time::Instant::now();
+            let r = run_plan(p, false);
+            if std::env::var("VERIF_C12_PROFILE").is_ok() {
+                let ms = t1.elapsed().as_millis();
+                if ms > 400 {
+                    eprintln!("slow run {}: {} ms clients={} ops={} contents={:?} stress={} policy={:?}", i, ms, p.clients.len(), p.clients.iter().map(|c| c.len()).sum::<usize>(), p.contents.iter().map(|c| c.chars().take(24).collect::<String>()).collect::<Vec<_>>(), p.filler_from.is_some(), p.policy);
+                }
+            }
+            r
+        });
         wall_runs += tr.elapsed().as_secs_f64();
         for ((i, plan, _), res) in plans.iter().zip(results) {
             let r = match res {
